@@ -928,7 +928,7 @@ def gen_plateau_locus(src, with_annotation=True, chrom="chr1"):
 
 
 def gen_long_gene_locus(src, with_annotation=True, chrom="chr1", straddle=False, x_annotated=True, n_cross=1,
-                        tail_only=False, inner_bridge=False):
+                        tail_only=False, inner_bridge=False, novel_tail=False):
     """A sparsely covered gene longer than two splitting windows: 3-5 exons separated by introns of 130-170 bins
     (33-43 kb), 1-3 full-length reads that are therefore processed in >= 3 regions and assigned to the same isoform in
     each of them, short reads on single exons, optionally a pile-up on the first exon (so that depth 2-3 is still a
@@ -1013,6 +1013,19 @@ def gen_long_gene_locus(src, with_annotation=True, chrom="chr1", straddle=False,
             special.append("x%d" % k)
             reads.append(R.make_read("x%d" % k, chrom, blocks, flag=16 if stx == "-" else 0, mapq=60,
                                      polya=25 if stx == "+" else 0, polyt=25 if stx == "-" else 0))
+    if novel_tail:
+        # an unannotated isoform of L that uses its last two exons and one more exon behind the annotated gene end: the
+        # model belongs to the last processing region and reaches beyond the gene record
+        extra = [chain[-1][1] + src.int(300, 700), 0]
+        extra[1] = extra[0] + src.int(200, 400)
+        nt_chain = [list(chain[-2]), list(chain[-1]), extra]     # shares the last intron of L
+        overrides_nt = build.splice_overrides(chrom, nt_chain, strand)
+        for _ in range(src.int(4, 7)):
+            k += 1
+            reads.append(R.make_read("nt%d" % k, chrom, [list(b) for b in nt_chain], flag=16 if strand == "-" else 0,
+                                     mapq=60, polya=25 if strand == "+" else 0))
+    else:
+        overrides_nt = []
     if inner_bridge and n_ex >= 3:
         # a compact gene W inside the second intron of L (i.e. behind the first split point, in a region of its own
         # gene set) and reads that join the first exon of L to the exons of W: in the first region they can only be
@@ -1032,7 +1045,8 @@ def gen_long_gene_locus(src, with_annotation=True, chrom="chr1", straddle=False,
                 special.append("br%d" % k)
                 reads.append(R.make_read("br%d" % k, chrom, [list(chain[0])] + [list(b) for b in cw],
                                          flag=16 if strand == "-" else 0, mapq=60))
-    end = chain[-1][1]
+    overrides += overrides_nt
+    end = max(chain[-1][1], max(R.ref_end_of(r) for r in reads))
     if src.bool(0.6):
         g0 = end + src.int(300, 2000)
         c2 = [[g0 + 1, g0 + 300], [g0 + 801, g0 + 1100]]
